@@ -75,7 +75,7 @@ FNAMES = ["f", "r#type", "r#g", "arg1"]   # plain, raw keyword, raw non-keyword,
 
 def unraw(n):
     return n[2:] if n and n.startswith("r#") else n
-CONTEXTS = ["gen", "nodeps", "mod", "impl", "trait", "traitreq", "stamped"]   # stamped: like gen, but written in a macro_rules body with the trait name as macro argument
+CONTEXTS = ["gen", "nodeps", "mod", "impl", "trait", "traitreq", "stamped", "targetprov"]   # stamped: like gen, but written in a macro_rules body with the trait name as macro argument; targetprov: like impl, but the delegated trait PROVIDES the method with the same patterns
 REQ_OK = {"id", "raw", "wild", "fnname", "gnext", "gprev", "suffix"}   # what a method WITHOUT a body may declare: identifiers and `_`
 
 
@@ -100,7 +100,7 @@ def enumerate_states(tier):
                     continue
                 if fname in ("r#g", "arg1") and len(w) > 2 and tier != "thorough":
                     continue
-                if ctx in ("trait", "traitreq", "stamped") and len(w) > 2 and tier != "thorough":
+                if ctx in ("trait", "traitreq", "stamped", "targetprov") and len(w) > 2 and tier != "thorough":
                     continue
                 if ctx == "traitreq" and not set(w) <= REQ_OK:
                     continue
@@ -159,8 +159,11 @@ def render(s):
         direct = "<App as Tr>::%s(&*app, %s)" % (fname, args)
     else:
         plain = ", ".join("q%d: %s" % (i, d["ty"]) for i, d in enumerate(ds))
+        decl = "fn %s(&self, %s) -> String;" % (fname, plain)
+        if ctx == "targetprov":
+            decl = "fn %s(&self, %s) -> String { ::std::string::String::from(\"default\") }" % (fname, ", ".join(params))
         L += ["    #[::entrait::entrait(TrImpl, delegate_by = DelegateTr)]",
-              "    pub trait Tr { fn %s(&self, %s) -> String; }" % (fname, plain),
+              "    pub trait Tr { %s }" % decl,
               "    pub struct X;",
               "    #[::entrait::entrait]",
               "    impl TrImpl for X {",
@@ -169,7 +172,7 @@ def render(s):
               "    pub struct App;",
               "    impl DelegateTr<Self> for App { type Target = X; }"]
         direct = "X::%s(&app, %s)" % (fname, args)
-    appexpr = "::entrait::Impl::new(App)" if ctx in ("impl", "trait", "traitreq") else "::entrait::Impl::new(())"
+    appexpr = "::entrait::Impl::new(App)" if ctx in ("impl", "trait", "traitreq", "targetprov") else "::entrait::Impl::new(())"
     L += ["    pub fn client() {",
           "        let app = %s;" % appexpr,
           '        { let r = %s; rt::out("d", format!("{}##{}", rt::take(), r)); }' % direct,
@@ -201,11 +204,11 @@ def method_params(view, s):
         items = [x for it in items if it["k"] == "mod" and it.get("items") for x in it["items"]]
     out = []
     for it in items:
-        if it["k"] == "trait" and it["ident"] == "Tr" and s["ctx"] not in ("impl", "trait", "traitreq"):
+        if it["k"] == "trait" and it["ident"] == "Tr" and s["ctx"] not in ("impl", "trait", "traitreq", "targetprov"):
             for f in it["items"]:
                 if f["k"] == "fn" and f["sig"]["ident"] == fname:
                     out.append(("trait", typed(f["sig"])))
-        if it["k"] == "impl" and it.get("trait") and (it["trait"].startswith("Tr") and s["ctx"] != "impl" or it["trait"].startswith("TrImpl")):
+        if it["k"] == "impl" and it.get("trait") and (it["trait"].startswith("Tr") and s["ctx"] not in ("impl", "targetprov") or it["trait"].startswith("TrImpl")):
             for f in it["items"]:
                 if f["k"] == "fn" and f["sig"]["ident"] == fname:
                     out.append(("impl", typed(f["sig"])))
@@ -219,9 +222,9 @@ def evaluate(states, report, tier):
     reqs, keys = [], []
     for s in states:
         recs = [r for r in results[s["key"]].records if "output_tt" in r]
-        want_attr = "" if s["ctx"] == "impl" else None
+        want_attr = "" if s["ctx"] in ("impl", "targetprov") else None
         for r in recs:
-            if s["ctx"] == "impl" and r["attr"].strip() != "":
+            if s["ctx"] in ("impl", "targetprov") and r["attr"].strip() != "":
                 continue
             reqs.append(dict(op="file", tt=r["output_tt"]))
             keys.append(s["key"])
@@ -258,7 +261,7 @@ def evaluate(states, report, tier):
                         continue
                     if len(set(unraw(n) for n in names)) != len(names):
                         problems.append(("duplicate-names", str(names)))
-                    if s["ctx"] not in ("impl", "trait", "traitreq") and unraw(s["fname"]) in [unraw(n) for n in names]:
+                    if s["ctx"] not in ("impl", "trait", "traitreq", "targetprov") and unraw(s["fname"]) in [unraw(n) for n in names]:
                         problems.append(("shadows-callee", "%s contains the function's own name `%s`" % (names, s["fname"])))
                     for i, (got, want) in enumerate(zip(names, m["names"])):
                         if want is not None and got != want:
